@@ -51,7 +51,9 @@ enum Mode {
 #[derive(Clone, Debug)]
 struct Variant {
     c0_kind: u32,   // 0 listen_for_connection_blocked, 1 open_channel(None), 2 Connection::close
-    rn_publish: bool,
+    /// request on the channel the server closes: 0 queue_declare, 1 publish, 2 drop the channel's consumer
+    /// (receiver included, as an application does), 3 cancel it
+    rn_kind: u32,
     rm_publish: bool,
     consumer_on_n: bool,
     bound: usize,
@@ -88,10 +90,11 @@ fn norm(r: &OpResult) -> String {
 fn run_one(seq: &[usize], v: &Variant, mode: Mode, cs: ChoiceStream, text: bool) -> Outcome {
     let n_id = 1u16;
     let m_id = 2u16;
-    let rn_op = if v.rn_publish {
-        Op::Publish { exchange: "x.n".into(), rk: "rk.n".into(), mandatory: false, immediate: false, props: 1, body_len: 10, via_exchange: false }
-    } else {
-        Op::QueueDeclare { name: "q.n".into(), durable: false, exclusive: false, auto_delete: false, args: 0, mode: crate::client::Mode::Sync }
+    let rn_op = match v.rn_kind {
+        1 => Op::Publish { exchange: "x.n".into(), rk: "rk.n".into(), mandatory: false, immediate: false, props: 1, body_len: 10, via_exchange: false },
+        2 => Op::DropConsumer { slot: 0, whole: true },
+        3 => Op::Cancel { slot: 0 },
+        _ => Op::QueueDeclare { name: "q.n".into(), durable: false, exclusive: false, auto_delete: false, args: 0, mode: crate::client::Mode::Sync },
     };
     let rm_op = if v.rm_publish {
         Op::Publish { exchange: "x.m".into(), rk: "rk.m".into(), mandatory: false, immediate: false, props: 0, body_len: 5000, via_exchange: false }
@@ -309,12 +312,13 @@ impl Scenario for C20 {
         let mut cs = spec.stream();
         let v = Variant {
             c0_kind: cs.choose("c0_kind", 3),
-            rn_publish: cs.choose("rn_publish", 2) == 1,
+            rn_kind: cs.choose("rn_kind", 4),
             rm_publish: cs.choose("rm_publish", 2) == 1,
             consumer_on_n: cs.choose("consumer_on_n", 2) == 1,
             bound: [16usize, 1, 2][cs.choose("bound", 3) as usize],
             code: 300 + cs.choose("code", 200) as u16,
         };
+        let v = Variant { consumer_on_n: v.consumer_on_n || v.rn_kind >= 2, ..v };
         let head = cs.record.clone();
         // the two serial executions use fixed, simple schedules of their own
         let a = run_one(&seq, &v, Mode::SerialRequestsFirst, ChoiceStream::generate(spec.seed ^ 0xA), false);
@@ -394,7 +398,7 @@ impl Scenario for C20 {
             }
         }
         let mut h = x.trace_hash ^ (si as u64) << 48;
-        h ^= (v.c0_kind as u64) << 40 | (v.rn_publish as u64) << 39 | (v.rm_publish as u64) << 38 | (v.consumer_on_n as u64) << 37;
+        h ^= (v.c0_kind as u64) << 40 | (v.rn_kind as u64) << 33 | ((v.rn_kind == 1) as u64) << 39 | (v.rm_publish as u64) << 38 | (v.consumer_on_n as u64) << 37;
         rep.distinct = h;
         rep
     }
